@@ -127,7 +127,41 @@ func (st *State) oblige(name, kind string, goal Term, desc string) {
 		st.ex.addOblig(Oblig{Name: name, Kind: kind, Asm: nil, Goal: tTrue, Desc: desc})
 		return
 	}
+	// a conjunction is proved conjunct by conjunct (a negated conjunction is a disjunction the solvers handle far worse);
+	// implications with a conjunctive conclusion are distributed likewise
+	if parts := splitGoal(goal); len(parts) > 1 {
+		for i, p := range parts {
+			st.ex.addOblig(Oblig{Name: fmt.Sprintf("%s/%d", name, i), Kind: kind, Asm: st.asm[:len(st.asm):len(st.asm)], Goal: p, Desc: desc})
+		}
+		return
+	}
 	st.ex.addOblig(Oblig{Name: name, Kind: kind, Asm: st.asm[:len(st.asm):len(st.asm)], Goal: goal, Desc: desc})
+}
+
+// splitGoal splits (and a b ...) and (=> h (and a b ...)) into separate goals.
+func splitGoal(g Term) []Term {
+	if strings.HasPrefix(g.S, "(and ") {
+		items, _ := parseSexprList(g.S)
+		var out []Term
+		for _, it := range items[1:] {
+			out = append(out, splitGoal(Term{it, SBool})...)
+		}
+		return out
+	}
+	if strings.HasPrefix(g.S, "(=> ") {
+		items, _ := parseSexprList(g.S)
+		if len(items) == 3 {
+			concl := splitGoal(Term{items[2], SBool})
+			if len(concl) > 1 {
+				var out []Term
+				for _, c := range concl {
+					out = append(out, tImp(Term{items[1], SBool}, c))
+				}
+				return out
+			}
+		}
+	}
+	return []Term{g}
 }
 
 // ---------- heap ----------
@@ -439,7 +473,7 @@ func (l Loc) index(i Term) Loc {
 }
 
 func elemLoc(s Sl, elem types.Type, i Term) Loc {
-	return Loc{Kind: "E", Base: typeKeyString(elem), Dims: []Term{s.Ref, tAdd(s.Off, i)}, Type: elem}
+	return Loc{Kind: "E", Base: typeKeyString(elem), Dims: []Term{s.Ref, linNorm(tAdd(s.Off, i))}, Type: elem}
 }
 
 func keyIsUnder(key, prefix string) bool { return strings.HasPrefix(key, prefix) }
